@@ -519,11 +519,20 @@ let replay_all (z0 : sys2) (evs : (int * string) list) : string =
            end
            else if starts_with e "w " then begin
              let ok = not (String.length e >= 4 && String.sub e (String.length e - 4) 4 = "fail") in
+             (* a worker event inside a call of the caller (the caller is blocked handing a
+                request to the worker, or runs concurrently): the requests the call still has
+                to hand over may or may not have reached the queue *)
+             let pre = List.concat_map (fun (z, w) ->
+                 if w = None then [(z, w)] else
+                   let rec go z acc = (match zstep z ZEff with
+                       | Some (z', []) -> go z' ((z', w) :: acc)
+                       | _ -> List.rev acc) in
+                   (z, w) :: go z []) !frontier in
              List.concat_map (fun (z, w) ->
                  let all = worker_next z ok 0 in
                  let cs = List.filter (fun (_, v) -> str_vis v = e) all in
                  if cs = [] then note ("model worker could: [" ^ String.concat " | " (List.map (fun (_, v) -> str_vis v) all) ^ "]");
-                 List.concat_map (fun (z', _) -> List.map (fun x -> (x, w)) (advance z')) cs) !frontier
+                 List.concat_map (fun (z', _) -> List.map (fun x -> (x, w)) (advance z')) cs) pre
            end
            else if starts_with e "c snap " then begin
              let obs = String.trim (after e "c snap disk") in
